@@ -113,10 +113,51 @@ def gen_deferred_script(rng):
     return '\n'.join(L) + '\n'
 
 
+def gen_rotation_script(rng):
+    """Rotation after a rotation request that came to nothing: the switch asked for by an overflowing write FAILS (the
+    file of the next blob cannot be created) or has become MOOT when the worker gets to it (the full blob was closed by
+    the client in the meantime). Filling the next active blob must still lead to a switch."""
+    maxrec = rng.choice([2, 3])
+    L = ['cfg K=4 dup=1 group=%d bloom=none init=eager runtime=%s maxrec=%d nomodel=1' % (rng.choice([2, 8]), rng.choice(['mt', 'ct']), maxrec), 'open']
+    keys = [key_hex(4, i) for i in range(3)]
+    seed = [0]
+    def w():
+        seed[0] += 1
+        return 'W %s %d - 5 %d' % (rng.choice(keys), rng.choice([5, 7, 9]), seed[0])
+    for _ in range(maxrec):
+        L.append(w())
+    mode = rng.choice(['failed', 'failed', 'moot'])
+    if mode == 'failed':
+        L.append('fail %s .blob 0 %s' % (rng.choice(['create', 'create', 'append', 'sync']), rng.choice(['EIO', 'ENOSPC'])))
+        for _ in range(rng.choice([1, 2])):
+            L.append('sleep 250')
+            L.append(w())
+            L.append('quiesce')
+        L.append('clearfail')
+    else:
+        L.append('autoquiesce 0')
+        L.append('sleep 250')
+        L.append(w())                 # asks for the switch ...
+        L.append('close_active')      # ... and takes the full blob away before the worker gets to it
+        L.append('autoquiesce 1')
+        L.append('quiesce')
+        L.append(rng.choice(['create_active', 'nop']))
+    L.append('quiesce')
+    L.append('#OVERFLOW')
+    L.append('counts')
+    for _ in range(2 * maxrec + 2):
+        L.append('sleep 250')
+        L.append(w())
+        L.append('quiesce')
+    L.append('counts')
+    L.append('close')
+    return '\n'.join(L) + '\n'
+
+
 def gen(tier, rng):
     n = 96 if tier == 'quick' else 1500
     return [('bg%05d' % i, gen_script(rng)) for i in range(n)] + [('spaced%05d' % i, gen_spaced_script(rng)) for i in range(n // 4)] + \
-           [('deferred%05d' % i, gen_deferred_script(rng)) for i in range(n // 6)]
+           [('deferred%05d' % i, gen_deferred_script(rng)) for i in range(n // 6)] + [('rotation%05d' % i, gen_rotation_script(rng)) for i in range(n // 4)]
 
 
 def next_of(line):
